@@ -109,4 +109,56 @@ theorem ctr_core_eq_wrapper (C : Cipher) (hC : C.Valid) (hbs : C.bs < 256) (f : 
   core_eq_wrapper (ctr_coreSpec C hC hbs f hw hcs k hk iv hiv hblk) w w' _ (ctr_init_rep C f iv) blocks hb
     (Or.inr (Or.inl hn))
 
+/-! ### ciphertext stealing on a whole number of blocks = the plain mode -/
+
+/-- **CBC-CS1 and CBC-CS2 on `k ≥ 1` whole blocks are the `cbc` crate's encryption** (any two backend widths);
+    **CBC-CS3 is the same with the last two blocks exchanged** (one block: unchanged). -/
+theorem cts_cbc_aligned_eq_cbc (C : Cipher) (hC : C.Valid) (w w' : Nat) (iv : Bytes) (blocks : List Bytes)
+    (hb : AllLen C.bs blocks) :
+    Cts.cbcCs1Enc C w iv blocks.flatten = (Cbc.encBlocks C w' (Cbc.init C iv) blocks).1.flatten ∧
+    Cts.cbcCs2Enc C w iv blocks.flatten = (Cbc.encBlocks C w' (Cbc.init C iv) blocks).1.flatten ∧
+    Cts.cbcCs3Enc false C w iv blocks.flatten =
+      (if blocks.length > 1 then (Cts.swapLast2 (Cbc.encBlocks C w' (Cbc.init C iv) blocks).1).flatten
+       else (Cbc.encBlocks C w' (Cbc.init C iv) blocks).1.flatten) := by
+  have h := chunks_of_blocks C.bs hC.bs_pos blocks [] hb (by simpa using hC.bs_pos)
+  rw [List.append_nil] at h
+  have he : Cts.cbcEnc C iv blocks = Cbc.encBlocks C w' (Cbc.init C iv) blocks := (cts_cbc_eq_cbc_crate C w' w' iv blocks).1
+  refine ⟨?_, ?_, ?_⟩
+  · simp [Cts.cbcCs1Enc, h.1, h.2, he]
+  · simp [Cts.cbcCs2Enc, h.1, h.2, he]
+  · simp [Cts.cbcCs3Enc, h.1, h.2, he]
+
+/-- the same for decryption, CS1 and CS2. -/
+theorem cts_cbc_aligned_dec_eq_cbc (C : Cipher) (hC : C.Valid) (w w' : Nat) (iv : Bytes) (blocks : List Bytes)
+    (hb : AllLen C.bs blocks) :
+    Cts.cbcCs1Dec C w iv blocks.flatten = (Cbc.decBlocks C w' (Cbc.init C iv) blocks).1.flatten ∧
+    Cts.cbcCs2Dec C w iv blocks.flatten = (Cbc.decBlocks C w' (Cbc.init C iv) blocks).1.flatten := by
+  have h := chunks_of_blocks C.bs hC.bs_pos blocks [] hb (by simpa using hC.bs_pos)
+  rw [List.append_nil] at h
+  have hd : Cts.cbcDec C w iv blocks = Cbc.decBlocks C w' (Cbc.init C iv) blocks := (cts_cbc_eq_cbc_crate C w w' iv blocks).2
+  exact ⟨by simp [Cts.cbcCs1Dec, h.1, h.2, hd], by simp [Cts.cbcCs2Dec, h.1, h.2, hd]⟩
+
+/-- **ECB-CS1 and ECB-CS2 on whole blocks are raw block encryption; ECB-CS3 exchanges the last two blocks.** -/
+theorem cts_ecb_aligned_eq_raw (C : Cipher) (hC : C.Valid) (w : Nat) (blocks : List Bytes) (hb : AllLen C.bs blocks) :
+    Cts.ecbCs1Enc C w blocks.flatten = (blocks.map C.enc).flatten ∧
+    Cts.ecbCs2Enc C w blocks.flatten = (blocks.map C.enc).flatten ∧
+    Cts.ecbCs3Enc false C w blocks.flatten =
+      (if blocks.length > 1 then (Cts.swapLast2 (blocks.map C.enc)).flatten else (blocks.map C.enc).flatten) ∧
+    Cts.ecbCs1Dec C w blocks.flatten = (blocks.map C.dec).flatten ∧
+    Cts.ecbCs2Dec C w blocks.flatten = (blocks.map C.dec).flatten := by
+  have h := chunks_of_blocks C.bs hC.bs_pos blocks [] hb (by simpa using hC.bs_pos)
+  rw [List.append_nil] at h
+  have he := C05.cts_ecbEnc_eq C w blocks
+  have hd := C05.cts_ecbDec_eq C w blocks
+  refine ⟨?_, ?_, ?_, ?_, ?_⟩
+  · simp [Cts.ecbCs1Enc, h.1, h.2, he]
+  · simp [Cts.ecbCs2Enc, h.1, h.2, he]
+  · simp [Cts.ecbCs3Enc, h.1, h.2, he]
+  · simp [Cts.ecbCs1Dec, h.1, h.2, hd]
+  · simp [Cts.ecbCs2Dec, h.1, h.2, hd]
+
+/-- non-vacuity: two 2-byte blocks are a whole number of blocks of the toy cipher with `bs = 2`. -/
+example : AllLen (Toy.cipher [1,2,3,4,5,6,7,8,9,10,11,12,13,14,15,16] 2).bs [[1, 2], [3, 4]] := by
+  intro b hb; simp at hb; rcases hb with rfl | rfl <;> rfl
+
 end Thm.C14
